@@ -43,7 +43,7 @@ func (c SessCfg) pol() int {
 func (c SessCfg) world() *sim.World {
 	return sim.NewWorld(
 		sim.PartyOpts{Seed: c.SeedA, Pol: c.pol(), KeyI: c.KeyA, Frag: c.FragA, NoErrH: c.NoErrH, ShortKeys: c.SkA},
-		sim.PartyOpts{Seed: c.SeedB, Pol: c.pol(), KeyI: c.KeyB, Frag: c.FragB, NoErrH: c.NoErrH, ShortKeys: c.SkB, ShortFrom: 3})
+		sim.PartyOpts{Seed: c.SeedB, Pol: c.pol(), KeyI: c.KeyB, Frag: c.FragB, NoErrH: c.NoErrH, ShortKeys: c.SkB, ShortFrom: 1})
 }
 
 func minFrag(v int) int {
@@ -211,7 +211,7 @@ func runC04(sc *C04Script) *sim.Outcome {
 			s.afterReceive(w.Deliver(who, 0))
 		case "sk":
 			// the next D-H key pair this party generates has a public value that is a byte shorter than usual
-			w.P[who].R.Force40 = append(w.P[who].R.Force40, sim.ShortExps[(s.nText+op.L)%len(sim.ShortExps)])
+			w.P[who].R.ArmShort(who)
 			o.Class("short-public-value-armed")
 		case "age":
 			w.AgeClock(who, 2*time.Minute)
